@@ -227,7 +227,8 @@ inline rc::Gen<ZoneSpec> zone_gen() {
     for (int i = 0; i < nhist; ++i) {
       TypeSpec nt;
       int how = *vf::range<int>(0, 9);
-      if (how == 0 && i > 0) nt = z.types[prev_type];                        // no-op: same type again
+      bool twin = false;
+      if (how == 0 && i > 0) { nt = z.types[prev_type]; twin = *vf::range<int>(0, 1) == 1; }  // no-op: same type again, or its twin
       else if (how == 1 && z.types.size() > 1) nt = z.types[1 + *vf::index(z.types.size() - 1)];
       else if (how == 2 && i > 0) { nt = z.types[prev_type]; nt.isdst = !nt.isdst; }                 // isdst-only change
       else if (how == 3 && i > 0) { nt = z.types[prev_type]; nt.abbr = *abbr_gen(); }                // abbreviation-only change
@@ -237,6 +238,11 @@ inline rc::Gen<ZoneSpec> zone_gen() {
         if (nt.utoff >= 86400 || nt.utoff <= -86400) nt.utoff = z.types[prev_type].utoff;
       }
       int ti = type_index(nt);
+      if (twin && z.types.size() < 18) {
+        // zic writes "twin" types that differ only in their standard/wall or UT/local indicators:
+        // a separate table entry with the same offset, isdst and abbreviation.  Moving to it changes nothing.
+        z.types.push_back(nt); ti = (int)z.types.size() - 1; z.indicators = true;
+      }
       int32_t delta = z.types[ti].utoff - z.types[prev_type].utoff;
       int64_t need = (int64_t)std::abs(prev_delta) + std::abs(delta) + 1;
       if (i > 0) {
